@@ -1,6 +1,7 @@
 """C20 dense oracle for the bond-dimension clause.
 
 stdin : {"cases": [{"n": nsite, "terms": [[[sym_idx per site], coef], ...]}, ...], "algos": [...]}
+        coef is a float (dyadic stream) or an exact rational [num, den] (decimal stream)
 file payload["out"]: {"res": [{"bd": {algo: [...]}, "exp": [...], "nL": [...], "nR": [...], "dense_err": {algo: float}} ...]}
 
 For every case a half-spin chain operator  sum_t coef_t * prod_i sym_{t,i}  is built with
@@ -9,11 +10,15 @@ renormalizer.Mpo(model, terms, algo=algo).  Independently of the package the ter
 partial terms t[:k] and the distinct right partial terms t[k:] is formed; its minimum vertex cover
 is found by brute force (bit masks over the smaller side).  `exp` is that number per cut
 (boundaries 1), nL/nR the numbers of distinct left/right parts.
+In the decimal stream the operator is DEFINED by exact Fractions: duplicates are merged exactly, strings
+whose coefficients cancel over the rationals are not part of the operator (even if 0.1 + 0.2 - 0.3 != 0
+in binary64) and must not occupy a bond; the package receives the correctly rounded doubles.
 The dense matrix of the Mpo is also compared with the kron-sum of the terms (sanity of the
 decomposition that produced those bond dimensions).
 """
 import json
 import sys
+from fractions import Fraction
 
 import numpy as np
 
@@ -52,12 +57,15 @@ def run_case(case, algos):
     merged = {}
     for idxs, coef in case["terms"]:
         t = tuple(SYMS[i] for i in idxs)
-        merged[t] = merged.get(t, 0.0) + coef
+        exact = Fraction(coef[0], coef[1]) if isinstance(coef, (list, tuple)) else Fraction(coef)
+        coef = float(exact)
+        merged[t] = merged.get(t, Fraction(0)) + exact
         nz = [(s, i) for i, s in enumerate(t) if s != "I"]
         if nz:
             ops.append(Op(" ".join(s for s, _ in nz), [i for _, i in nz], coef))
         else:
             ops.append(Op("I", 0, coef))
+    merged = {t: c for t, c in merged.items() if c != 0}       # exact cancellation: not part of the operator
     keys = sorted(merged)
     exp, nLs, nRs = [1], [1], [1]
     for k in range(1, n):
@@ -79,7 +87,7 @@ def run_case(case, algos):
             m = np.ones((1, 1))
             for s in t:
                 m = np.kron(m, MATS[s])
-            dense_ref += c * m
+            dense_ref += float(c) * m
     out = {"exp": exp, "nL": nLs, "nR": nRs, "bd": {}, "dense_err": {}, "err": {}}
     model = Model(basis, ops)
     for algo in algos:
